@@ -54,6 +54,7 @@ type Resp struct {
 	IssuerFormat string
 	Status       string
 	StatusNested []string // StatusCode elements nested below the top-level one (must not matter)
+	StatusShape  string   // "" | "absent" (no Status element) | "empty" (<Status/>) | "novalue" (StatusCode without Value): all read as the empty status (set Status = "")
 	Entries      []Assn
 	Sig          string
 	Foreign      []string // look-alike children that are *not* SAML assertions (foreign / empty namespace): must be ignored
@@ -372,6 +373,20 @@ func (b *builder) responseEl(r Resp) *etree.Element {
 		inner = inner.StatusCode
 	}
 	el := rs.Element()
+	if st := el.FindElement("./Status"); st != nil && r.StatusShape != "" {
+		switch r.StatusShape {
+		case "absent":
+			el.RemoveChild(st)
+		case "empty":
+			for _, ch := range st.ChildElements() {
+				st.RemoveChild(ch)
+			}
+		case "novalue":
+			if sc := st.FindElement("./StatusCode"); sc != nil {
+				sc.RemoveAttr("Value")
+			}
+		}
+	}
 	setTimeAttr(el, "IssueInstant", r.II, b.lexStyle+4)
 	for i, a := range r.Entries {
 		el.AddChild(b.assertionEl(a, i))
@@ -455,7 +470,18 @@ func (c *Ctx) realSP(cfg SPCfg) *saml.ServiceProvider {
 	return s
 }
 
+// the zone of the host the SP runs on says nothing about a message: instants written without a zone are UTC (saml-core 1.3.3),
+// so every case runs under one of several host zones, in rotation, and must come out the same
+var hostZones = []*time.Location{time.UTC, time.FixedZone("verif-west", -5*3600), time.UTC, time.FixedZone("verif-east", 5*3600+1800)}
+var hostZoneN int
+
+func rotateHostZone() {
+	hostZoneN++
+	time.Local = hostZones[hostZoneN%len(hostZones)]
+}
+
 func setGlobals(cfg SPCfg, now int64) {
+	rotateHostZone()
 	saml.MaxIssueDelay = time.Duration(cfg.Delay) * time.Millisecond
 	saml.MaxClockSkew = time.Duration(cfg.Skew) * time.Millisecond
 	saml.StatusSuccess = cfg.Success
